@@ -105,7 +105,7 @@ def witness_class(rec, clause):
     preds = {
         "NoUnion": lambda t, p: t["k"] == "disj",
         "EnumsNamed": lambda t, p: t["k"] == "enum" and len(p) > 0,
-        "StructsNamed": lambda t, p: t["k"] == "struct" and len(p) > 0 and p[-1] != "inter",
+        "StructsNamed": lambda t, p: t["k"] == "struct" and len(p) > 0 and "inter" not in p,
         "NoTOrNull": lambda t, p: t["k"] == "disj" and len(t["branches"]) == 2 and any(is_null(b) for b in t["branches"]),
         "NonRequiredIsNullable": lambda t, p: t["k"] == "struct" and any((not f["required"]) and not f["type"].get("nullable", True) for f in t["fields"]),
     }
@@ -118,3 +118,7 @@ def witness_class(rec, clause):
                 anc = list(p)[-2:]
                 return "in:" + ("/".join(anc) if anc else "object")
     return "unlocated"
+
+
+def case_key(rec):
+    return "%s|%s|%s|%s" % (rec["lang"], rec["pos"], ">".join(rec["shape"]), rec["leaf"])
